@@ -77,6 +77,16 @@ def long_cases(tier, rng):
                 continue
             yield Case(" ".join([f"factor {n} {alg}", fl] + th), k=False, tag=f"long{bits}b", timeout=60,
                        profiles=["release"])
+    # the abort request arrives while a COFACTOR is being factored: n = c*P*Q with a prime c of the factor base
+    # (above the trial-division bound): the sieve reports c as an unexpected factor at once and factor_impl recurses
+    # into P*Q, whose sieve takes minutes; the caller's predicate must still be polled there
+    for alg, bits, c, th in [("siqs", 240, 1009, []), ("siqs", 250, 211, ["threads=2"]), ("siqs", 230, 2003, ["threads=4"])]:
+        n = c * gen.rand_prime(rng, bits // 2) * gen.rand_prime(rng, bits - bits // 2)
+        for fl in ("abortms=1000", "abortms=2500"):
+            if tier == "quick" and fl == "abortms=2500":
+                continue
+            yield Case(" ".join([f"factor {n} {alg}", fl] + th), k=False, tag=f"long-cofactor{bits}b", timeout=60,
+                       profiles=["release"])
 
 
 def scan_cases(tier, rng):
@@ -94,6 +104,15 @@ def scan_cases(tier, rng):
         n = gen.rand_prime(rng, bits // 2) * gen.rand_prime(rng, bits - bits // 2)
         yield Case(f"abort_scan {n} {alg} {th} {300 if quick else 2000}", k=False, tag=f"scan{bits}b", timeout=900,
                    profiles=None if bits <= 130 else ["release"])
+    # three (four) prime factors under an explicit sieve selector: the sieve of n leaves a composite cofactor and
+    # factor_impl recurses into a second sieve; every flip instant of both sieves, and every abort decision of the
+    # recursion must be taken by calling the caller's predicate (kind `foreign` otherwise)
+    plan3 = [("siqs", 105, 3, 0), ("mpqs", 105, 3, 0), ("qs", 96, 3, 0), ("siqs", 120, 4, 2)]
+    if not quick:
+        plan3 += [("siqs", 150, 3, 0), ("mpqs", 135, 3, 2), ("qs", 120, 4, 0), ("siqs", 160, 4, 4)]
+    for alg, bits, k, th in plan3:
+        n = fc.prod([gen.rand_prime(rng, bits // k) for _ in range(k)])
+        yield Case(f"abort_scan {n} {alg} {th} {300 if quick else 2000}", k=False, tag=f"scan{bits}b-{k}primes", timeout=900)
 
 
 _scan = {"runs": 0, "flip_instants": 0}
@@ -115,12 +134,17 @@ def oracle(case, ans):
     n = int(case.args[0])
     if kind not in ("ok", "failure"):
         return f"factor() did not return cleanly after abort: {kind}"
+    if md.get("foreign", 0) > 0:
+        return (f"{md['foreign']} abort decision(s) of factor_impl were taken without calling the caller's predicate "
+                "(a sub-factorization runs with other Preferences: it cannot be aborted)")
     if kind == "ok":
         if fc.prod(fs) != n:
             return f"product of {fs} is not n"
         if fs != sorted(fs) or any(f < 2 for f in fs):
             return "list not sorted or contains 0/1"
     bound = LONG_LAT_BOUND_MS if case.tag.startswith("long") and case.args[1] != "ecm" else LAT_BOUND_MS
+    if case.tag.startswith("long-cofactor") and md.get("late", 0) == 0:
+        return "the abort request (after 1-2.5 s of a run that takes minutes) was never seen by a poll"
     # a machine whose run queue is longer than its 16 cores stretches every work unit: scale the bound
     try:
         import os
